@@ -29,7 +29,7 @@ MUTANTS = [
     {"name": "allocate-without-sum-check", "file": "src/broker/update.rs", "old": "        if sum_proxy_num < expected_num.get() {\n            return Err(MetaStoreError::NoAvailableResource);\n        }\n\n        if max_proxy_num * 2 > sum_proxy_num {", "new": "        if max_proxy_num * 2 > sum_proxy_num {", "expect": "C12.D2:allocator"},
     {"name": "second-host-may-equal-first", "file": "src/broker/update.rs", "old": "                        **host != first_host && free_count.is_some() && free_count != Some(0)", "new": "                        free_count.is_some() && free_count != Some(0)", "expect": "C12.D3:two-hosts"},
     {"name": "auto_add_nodes-no-tagging", "file": "src/broker/update.rs", "old": "                .expect(\"add_cluster: failed to get back proxy\");\n            proxy.cluster = Some(cluster_name.clone());\n        }\n\n        let nodes = cluster.get_nodes();\n        let new_nodes", "new": "                .expect(\"add_cluster: failed to get back proxy\");\n            let _ = proxy;\n        }\n\n        let nodes = cluster.get_nodes();\n        let new_nodes", "expect": "C12.D1:tags"},
-    {"name": "add_cluster-err-after-insert", "file": "src/broker/update.rs", "old": "        let epoch = self.store.bump_global_epoch();\n", "new": "        let epoch = self.store.bump_global_epoch();\n        self.store.clusters.remove(&cluster_name);\n        if node_num > 1_000_000 {\n            return Err(MetaStoreError::InvalidNodeNum);\n        }\n", "expect": "C12.D2"},
+    {"name": "add_cluster-err-after-tagging", "file": "src/broker/update.rs", "old": "        self.store.clusters.insert(cluster_name, cluster_store);\n        Ok(())\n    }\n\n    // This function should preserve the order", "new": "        if self.store.clusters.len() > 1_000_000 {\n            return Err(MetaStoreError::InvalidNodeNum);\n        }\n        self.store.clusters.insert(cluster_name, cluster_store);\n        Ok(())\n    }\n\n    // This function should preserve the order", "expect": "C12.D2:refusal-atomic:add_cluster"},
 ]
 
 MEMBER_TAGS = {"cluster-content", "clusters-map"}
